@@ -202,17 +202,32 @@ static void led_printparts(char *ai, char *pref, char *main,
 }
 
 /* continue reading the character starting with c */
+/* read the rest of a multi-byte character; a signal may interrupt the wait */
+static int led_readrest(char *buf, int n)
+{
+	int i, j, c;
+	for (i = 1; i < n; i++) {
+		c = term_read();
+		for (j = 0; c < 0 && j < 8; j++)
+			c = term_read();
+		if (c < 0)
+			return 1;
+		buf[i] = c;
+	}
+	return 0;
+}
+
 static char *led_readchar(int c, int kmap)
 {
 	static char buf[8];
 	int c1, c2;
-	int i, n;
+	int n;
 	if (c == TK_CTL('v')) {		/* literal character */
 		buf[0] = term_read();
 		buf[1] = '\0';
 		n = uc_len(buf);	/* the rest of a multi-byte character */
-		for (i = 1; i < n; i++)
-			buf[i] = term_read();
+		if (led_readrest(buf, n))
+			return NULL;
 		buf[n > 0 ? n : 1] = '\0';
 		return buf;
 	}
@@ -230,8 +245,8 @@ static char *led_readchar(int c, int kmap)
 	if ((c & 0xc0) == 0xc0) {	/* utf-8 character */
 		buf[0] = c;
 		n = uc_len(buf);
-		for (i = 1; i < n; i++)
-			buf[i] = term_read();
+		if (led_readrest(buf, n))
+			return NULL;
 		buf[n] = '\0';
 		return buf;
 	}
